@@ -7,7 +7,7 @@ T swaps the two; plus <Ax,y> = <x,A*y> on generated vectors (ndarray and CUQIarr
 import numpy as np
 from hypothesis import strategies as st
 
-from vlib.core import SubCheck, Violation, require, close, maxdiff, A, must
+from vlib.core import SubCheck, Violation, require, close, maxdiff, A, must, refuses
 from vlib import gen
 
 PROPERTY = "C07"
@@ -64,6 +64,17 @@ def check_model(model, x, y, rec, tags, what, check_T=True):
     require(close(np.asarray(model.forward(xa)).ravel(), Ax, 1e-10), f"{what}: forward differs on CUQIarray input")
     require(close(np.asarray(model.adjoint(ya)).ravel(), Aty, 1e-10), f"{what}: adjoint differs on CUQIarray input")
     require(close(np.asarray(model @ x).ravel(), Ax, 1e-12), f"{what}: model @ x != forward(x)")
+    # integer-typed input (an impulse, a mask, a uint8 image): the same linear map
+    xi_ = np.round(3 * x).astype(int)
+    yi_ = np.round(3 * y).astype(int)
+    r1, fi = refuses(lambda: np.asarray(model.forward(xi_), dtype=float).ravel())
+    r2, ff = refuses(lambda: np.asarray(model.forward(xi_.astype(float)), dtype=float).ravel())
+    if not r1 and not r2:
+        require(close(fi, ff, 1e-12), f"{what}: forward on an integer-typed array differs from forward on the same values as floats", int_input=fi, float_input=ff)
+    r1, ai = refuses(lambda: np.asarray(model.adjoint(yi_), dtype=float).ravel())
+    r2, af = refuses(lambda: np.asarray(model.adjoint(yi_.astype(float)), dtype=float).ravel())
+    if not r1 and not r2:
+        require(close(ai, af, 1e-12), f"{what}: adjoint on an integer-typed array differs from adjoint on the same values as floats", int_input=ai, float_input=af)
     if not check_T:
         return
     T = must(lambda: model.T, f"{what}: .T")
@@ -110,7 +121,7 @@ def generic_cases(draw, tier="quick"):
     y = draw(gen.vec(max(mf, 1)))
     c = {"backing": backing, "dom": dom, "ran": ran, "A": Amat, "x": x, "y": y,
          # after the first round of checks one geometry is replaced by another one with the same function space
-         "regeom": draw(st.sampled_from([None, None, "range", "domain"]))}
+         "regeom": draw(st.sampled_from([None, None, "range", "domain"])), "fortran_out": draw(st.booleans())}
     if backing == "view":
         c["sel"] = sel
         idx = {"prefix": list(range(mf)), "stride": list(range(0, nf, 2)), "all": list(range(nf))}[sel]
@@ -145,11 +156,16 @@ def build_generic(c):
             return out
         return cuqi.model.LinearModel(vfwd, vadj, range_geometry=ran, domain_geometry=dom)
 
+    fortran_out = bool(c.get("fortran_out")) and len(rshape) == 2
+
     def fwd(X):
-        return (Am @ np.asarray(X).reshape(-1)).reshape(rshape)
+        out = (Am @ np.asarray(X).reshape(-1)).reshape(rshape)
+        # a user function may well return a Fortran-ordered array (a transposed product, scipy.linalg.solve, ...): same values
+        return np.asfortranarray(out) if fortran_out else out
 
     def adj(Y):
-        return (Am.T @ np.asarray(Y).reshape(-1)).reshape(dshape)
+        out = (Am.T @ np.asarray(Y).reshape(-1)).reshape(dshape)
+        return np.asfortranarray(out) if (fortran_out and len(dshape) == 2) else out
     return cuqi.model.LinearModel(fwd, adj, range_geometry=ran, domain_geometry=dom)
 
 
